@@ -1956,7 +1956,9 @@ func (p *Prog) freshLiteralNode(v ssa.Value, depth int) bool {
 			if isNilConst(rv) {
 				continue
 			}
-			if !p.freshLiteralNode(rv, depth+1) {
+			// built in the helper by a composite literal that stores the typed value - not handed on to a
+			// constructor that reads the value back from its text (newFloatExpr(pos, toString(v)))
+			if _, direct := stripConv(rv).(*ssa.Alloc); !direct || !p.freshLiteralNode(rv, depth+1) {
 				return false
 			}
 			any = true
